@@ -3,7 +3,9 @@
 Body commands: set, incr, get, delete, and the other read-modify-writes of the transaction backend: expire (buffers the backend's
 current value and writes it back at commit) and set(exist=True|False) (decides on the key's presence); explicit `tx.commit()` /
 `tx.rollback()` on the Transaction object in the middle of a body (the body goes on: a body is a sequence of segments).
-Block endings: the body returns, raises an Exception, raises a BaseException that is not an Exception, gets LockedError, or the
+Block endings: the body returns, raises an exception object of one of four kinds (an Exception / a BaseException that is not an
+Exception, each with truthy instances - like every built-in exception - or with FALSY instances: a class defining `__len__` /
+`__bool__`, e.g. an error collection raised while empty), gets LockedError, or the
 task is CANCELLED while suspended inside the body (scheduler entries `cancel`, at every gate of a body: before a backend command,
 while waiting for a lock, in a sleep).
 
@@ -79,11 +81,28 @@ def canon_world(data, locks, now) -> str:
     return f"store={st} locks={ls} now={now}"
 
 
+# the four kinds of exception objects a body raises: op suffix -> (class name in harness/txsched.py, canonical outcome, in words)
+RAISE_KINDS = {
+    "": ("BodyError", "raise:body", "raised an Exception"),
+    "base": ("BodyBase", "raise:base", "raised a BaseException that is not an Exception"),
+    "falsy": ("BodyFalsy", "raise:falsy", "raised an Exception whose truth value is False (its class defines __len__, it was raised empty)"),
+    "falsybase": ("BodyFalsyBase", "raise:falsybase",
+                  "raised a BaseException that is not an Exception and whose truth value is False (its class defines __bool__)"),
+}
+
+
+def raise_kind(op) -> str:
+    k = op[1] if len(op) > 1 else ""
+    if k not in RAISE_KINDS:
+        raise HarnessError(f"bad op {op}")
+    return k
+
+
 def canon_outcome(out) -> str:
     if out[0] == "returned":
         return "ret:" + ",".join("n" if r is None else str(r) for r in out[1])
     if out[0] == "raised":
-        return {"BodyError": "raise:body", "LockedError": "raise:locked", "BodyBase": "raise:base"}.get(out[1], "raise:" + out[1])
+        return {"LockedError": "raise:locked", **{c: o for c, o, _ in RAISE_KINDS.values()}}.get(out[1], "raise:" + out[1])
     return out[0]
 
 
@@ -129,7 +148,7 @@ def attempts(timeout_u: int) -> int:
 
 def spec_body(ops, reads, retimed=None, conditional=None, read_kinds=None):
     """sequential meaning of a transaction body, given what its backend reads returned.  A body is a sequence of segments
-    separated by its explicit commits / rollbacks.  -> dict(kind = ok | raise | raise_base | incomplete, ov, dl = write-set of the
+    separated by its explicit commits / rollbacks.  -> dict(kind = ok | raise (then exc = which kind of exception object) | incomplete, ov, dl = write-set of the
     segment open at the end, res = results, commits = [(dl, ov, incs)] one per explicit commit passed, in order,
     incs = increments [(k, n)] of the open segment)
     (`retimed` / `conditional`, statistics only: collect the keys whose buffered value came from the backend read of an
@@ -146,8 +165,8 @@ def spec_body(ops, reads, retimed=None, conditional=None, read_kinds=None):
             return v
     it = _It()
 
-    def out(kind):
-        return {"kind": kind, "ov": ov, "dl": dl, "res": res, "commits": commits, "incs": incs}
+    def out(kind, exc=None):
+        return {"kind": kind, "exc": exc, "ov": ov, "dl": dl, "res": res, "commits": commits, "incs": incs}
     try:
         for op in ops:
             if op[0] == "set":
@@ -199,7 +218,7 @@ def spec_body(ops, reads, retimed=None, conditional=None, read_kinds=None):
             elif op[0] == "rollback":
                 ov, dl, incs = {}, set(), []
             elif op[0] == "raise":
-                return out("raise_base" if len(op) > 1 and op[1] == "base" else "raise")
+                return out("raise", raise_kind(op))
     except StopIteration:
         return out("incomplete")
     return out("ok")
@@ -290,7 +309,7 @@ def oracle(case, res):
                 j += 1
             got = [s[0] for s in st]
             raised = next((op for op in flat if op[0] == "raise"), None)
-            exp_out = ("raise:base" if len(raised) > 1 else "raise:body") if raised else canon_outcome(("returned", exp_res))
+            exp_out = RAISE_KINDS[raise_kind(raised)][1] if raised else canon_outcome(("returned", exp_res))
             if got != exp_labels or not ok or outs[tid] != exp_out:
                 bad.append(("ctx_isolation", f"task {tid} is outside any transaction but its commands {got} / effects / outcome {outs[tid]} "
                                              f"are not the direct ones {exp_labels} / {exp_out}"))
@@ -341,7 +360,7 @@ def oracle(case, res):
         got = [(lab, b, a, g) for lab, b, a, _, _, g in st if lab.startswith(("set_many:", "delete_many:"))]
         got_labels = [x[0] for x in got]
         foreign = [lab for lab, d in diffs if d and not (lab.startswith("set_many:") or lab.startswith("delete_many:"))]
-        if kind in ("ok", "raise", "raise_base"):
+        if kind in ("ok", "raise"):
             ngroups = len(groups)           # the body ran to its end / to its raise: every one of these commits, no other
             match = got_labels == [x[0] for grp in groups for x in grp]
         else:
@@ -354,9 +373,9 @@ def oracle(case, res):
                 want = {k: v for k, v in b.items() if k not in payload} if what == "del" else {**b, **payload}
                 eff_ok &= a == want
         durable[tid] = [inc for incs in seg_incs[:ngroups or 0] for inc in incs] if match else None
-        want_out = {"ok": canon_outcome(("returned", sp["res"])), "raise": "raise:body", "raise_base": "raise:base",
+        want_out = {"ok": canon_outcome(("returned", sp["res"])), "raise": RAISE_KINDS[sp["exc"] or ""][1],
                     "locked": "raise:locked", "cancelled": "cancelled"}[kind]
-        how = {"ok": "finished normally", "raise": "raised an Exception", "raise_base": "raised a BaseException that is not an Exception",
+        how = {"ok": "finished normally", "raise": RAISE_KINDS[sp["exc"] or ""][2],
                "locked": "got LockedError", "cancelled": "was cancelled while suspended inside the block"}[kind]
         if outs[tid] != want_out:
             bad.append(("own_writes_only", f"task {tid}: body {how}" + (f" with results {sp['res']}" if kind == "ok" else "") +
@@ -364,7 +383,7 @@ def oracle(case, res):
         elif not match or foreign or not eff_ok:
             exp = [[x[0] for x in grp] for grp in groups]
             bad.append(("own_writes_only", f"task {tid}: body {how}; its explicit commits" + (" and its final commit" if kind == "ok" else "") +
-                                           f" are {exp}" + ("" if kind in ("ok", "raise", "raise_base") else " (a prefix of them may have happened)") +
+                                           f" are {exp}" + ("" if kind in ("ok", "raise") else " (a prefix of them may have happened)") +
                                            f" but its steps issued {got_labels} (store changes at {[lab for lab, d in diffs if d]})"))
         if kind == "cancelled":
             c = cancelled_at[tid]
@@ -384,8 +403,18 @@ def oracle(case, res):
                 stats["cancelled_while_waiting_for_a_lock"] = 1
             if any(k for k, o in res.get("final_locks", {}).items() if o == tid):
                 bad.append(("own_writes_only", f"task {tid} was cancelled but still owns {sorted(res['final_locks'])} at the end"))
-        if kind == "raise_base":
+        if kind == "raise" and sp["exc"] in ("base", "falsybase"):
             stats["base_exception_leaves_block"] = 1
+        if kind == "raise" and sp["exc"] in ("falsy", "falsybase"):
+            stats["falsy_exception_leaves_block"] = 1
+            if sp["ov"] or sp["dl"]:
+                stats["falsy_exception_leaves_block_with_buffered_writes"] = 1
+            if p.get("form") == "dec":
+                stats["falsy_exception_leaves_decorated_call"] = 1
+            else:
+                stats["falsy_exception_leaves_context_manager_block"] = 1
+            if any(op[0] == "nin" for op in p["ops"]):
+                stats["falsy_exception_with_nested_block"] = 1
         nexp = sum(1 for op in flat if op[0] in ("commit", "rollback"))
         if nexp:
             body_cmds = [x[0] for x in st]
@@ -510,6 +539,8 @@ def oracle(case, res):
             stats["nested_block"] = 1
         if outs[tid] == "raise:body" and any(l.startswith("unlock:") for l in labs):
             stats["raise_with_locks"] = 1
+        if outs[tid] in ("raise:falsy", "raise:falsybase") and any(l.startswith("unlock:") for l in labs):
+            stats["falsy_raise_with_locks"] = 1
     decs = [i for i in txs if progs[i].get("form") == "dec" or any(op[0] == "nin" and op[1] == "dec" for op in progs[i]["ops"])]
     for a in decs:
         for b in decs:
@@ -752,6 +783,19 @@ def exhaustive_families():
         fams.append((f"{mode}: CANCEL anywhere: incr; tx.commit(); incr (only the open segment is dropped)",
                      {}, [tx(mode, [["incr", 0, 1], ["commit"], ["incr", 0, 1]], "ctx", 40), tx(mode, [["incr", 0, 5]], "ctx", 40)],
                      mode != "locked", 1))
+    for mode in ("fast", "locked", "serializable"):
+        # a body that raises an exception OBJECT whose truth value is False (the class defines __len__ / __bool__): rolled back like any
+        # other - decorator form and context-manager form, with a nested block, Exception and non-Exception BaseException
+        fams.append((f"{mode}: a decorated call that increments, writes a second key and raises a FALSY Exception, against an incrementing block",
+                     {0: 1}, [tx(mode, [["incr", 0, 1], ["set", 1, 5], ["raise", "falsy"]], "dec", 40), tx(mode, [["incr", 0, 2]], "ctx", 40)], True))
+        fams.append((f"{mode}: a context-manager block (a nested decorated call inside, then a delete) raising a FALSY non-Exception "
+                     f"BaseException, against an incrementing decorated call",
+                     {0: 1, 1: 7}, [tx(mode, [["nin", "dec"], ["incr", 0, 1], ["nout"], ["del", 1], ["raise", "falsybase"]], "ctx", 40),
+                                    tx(mode, [["incr", 0, 2]], "dec", 40)], mode != "locked"))
+        fams.append((f"{mode}: a FALSY Exception raised inside a nested context-manager block of a decorated call after an explicit "
+                     f"tx.commit(), against a plain reader",
+                     {0: 1}, [tx(mode, [["set", 1, 5], ["nin", "ctx"], ["commit"], ["incr", 0, 1], ["raise", "falsy"], ["nout"]], "dec", 40),
+                              plain([["get", 1], ["get", 0]])], True))
     fams.append(("locked: a body raising a BaseException that is not an Exception while holding two locks, against a waiting call",
                  {0: 1}, [tx("locked", [["incr", 0, 1], ["set", 1, 2], ["raise", "base"]], "ctx", 40), tx("locked", [["incr", 0, 2]], "dec", 40)], True))
     fams.append(("locked: opposite lock order with a short timeout (deadlock broken by LockedError)",
@@ -789,7 +833,8 @@ def gen_ops(rng, in_tx: bool, nmax: int, form: str = "ctx"):
         elif r < 0.80:
             ops.append(["sleep", rng.choice([1, 1, 2, 4, 8])])
         elif r < 0.82:
-            ops.append(["raise"] if rng.random() < 0.6 else ["raise", "base"])
+            r2 = rng.random()
+            ops.append(["raise"] if r2 < 0.35 else ["raise", "base"] if r2 < 0.55 else ["raise", "falsy"] if r2 < 0.8 else ["raise", "falsybase"])
         elif r < 0.90:
             if in_tx and "ctx" in stack:
                 ops.append(["commit"] if rng.random() < 0.6 else ["rollback"])
@@ -823,7 +868,8 @@ def gen_case(rng, ntasks_max: int, style: int):
                 ops.append(["incr", rng.choice([0, 0, 1]), rng.choice([1, 2, 1, -1])] if r < 0.55 else
                            ["expire", rng.choice([0, 0, 1])] if r < 0.70 else
                            ["get", rng.choice([0, 1])] if r < 0.80 else ["sleep", rng.choice([1, 2])] if r < 0.87 else
-                           ["commit"] if r < 0.93 else ["rollback"] if r < 0.96 else ["raise"] if r < 0.98 else ["raise", "base"])
+                           ["commit"] if r < 0.93 else ["rollback"] if r < 0.96 else ["raise"] if r < 0.97 else ["raise", "falsy"] if r < 0.98 else
+                           ["raise", "base"] if r < 0.99 else ["raise", "falsybase"])
             if rng.random() < 0.3:
                 ops = [["nin", rng.choice(["dec", "ctx"])]] + ops + [["nout"]]
             if not handles_ok(ops, form):
@@ -965,7 +1011,9 @@ def run(chk: Check) -> int:
                 "value (= read-modify-write), such a transaction that had to wait for a lock, a counter incremented by one transaction and re-timed by "
                 "another, a commit with several TTL groups, a conditional set that consulted the backend, a read-modify-write read issued under the "
                 "key's lock, a task cancelled inside its block - with buffered writes / holding locks / while waiting for a lock -, a task outside "
-                "any transaction cancelled, a BaseException that is not an Exception leaving a block, an explicit tx.commit() / tx.rollback() in the "
+                "any transaction cancelled, a BaseException that is not an Exception leaving a block, an exception object whose truth value is False "
+                "(Exception / non-Exception BaseException subclass defining __len__ / __bool__) leaving a decorated call / a context-manager block - "
+                "with buffered writes, holding locks, with a nested block -, an explicit tx.commit() / tx.rollback() in the "
                 "middle of a body, a lock given back by it and taken again later in the same block, a block ended by an exception after an explicit "
                 "commit); distinct = distinct (init, programs, resolved choice sequence, cancellation budget)",
         "exhaustive": all(e["complete"] for e in exhaustive) and bool(exhaustive),
@@ -980,7 +1028,8 @@ def run(chk: Check) -> int:
                    "between tasks (A3), cancellation of a task that is inside a commit (set_many / delete_many issued by __aexit__ or by an explicit "
                    "tx.commit()) or inside the unlocks, or that has not started (cancellation inside the body - before any backend command of it, in a "
                    "lock wait, in a sleep - IS modelled and exercised), KeyboardInterrupt / SystemExit (a user BaseException subclass stands for the "
-                   "non-Exception BaseExceptions), more than one transaction block per task, TTL values (expire is modelled as what it does to "
+                   "non-Exception BaseExceptions), exception classes whose __bool__ / __len__ raise (falsy exception objects ARE modelled and "
+                   "exercised), more than one transaction block per task, TTL values (expire is modelled as what it does to "
                    "values; another task's command between the set_many commands of the TTL groups of one commit), non-integer values inside the block, "
                    "the multi-key commands (set_many / delete_many / delete_match / get_many issued by a body), "
                    "a second backend/prefix, orders of the gathered unlocks other than by lock key, more than 4 tasks",
